@@ -68,6 +68,8 @@ struct Case {
     pool: usize,
     /// user-chosen singular value threshold (None = default)
     eps: Option<f64>,
+    /// length of the sample grid in units of the largest decay constant (None = 4)
+    span: Option<f64>,
 }
 
 fn fam_tag(f: &Family) -> &'static str {
@@ -92,7 +94,7 @@ fn wk_parse(v: &Value) -> WKind {
 fn case_json(c: &Case) -> Value {
     json!({"fam": fam_tag(&c.fam), "alpha": c.alpha, "coefs": c.coefs, "n": c.n, "prov": c.prov.name(), "scalar": if c.f32_ {"f32"} else {"f64"}, "par": c.par, "mrhs_api": c.mrhs_api,
            "w": wk_json(&c.w), "level": c.level, "noise_variant": c.noise_variant, "start_mult": c.start_mult,
-           "solver": {"patience": c.solver.patience, "tol": format!("{:?}", c.solver.tol), "stepbound": c.solver.stepbound}, "pool": c.pool, "eps": c.eps})
+           "solver": {"patience": c.solver.patience, "tol": format!("{:?}", c.solver.tol), "stepbound": c.solver.stepbound}, "pool": c.pool, "eps": c.eps, "span": c.span})
 }
 fn case_parse(v: &Value) -> Case {
     let fv = |x: &Value| -> Vec<f64> { x.as_array().unwrap().iter().map(|y| y.as_f64().unwrap()).collect() };
@@ -120,6 +122,7 @@ fn case_parse(v: &Value) -> Case {
         },
         pool: v["pool"].as_u64().unwrap() as usize,
         eps: v["eps"].as_f64(),
+        span: v.get("span").and_then(|x| x.as_f64()),
     }
 }
 
@@ -146,7 +149,7 @@ fn setup<T: Sc>(c: &Case, seed: u64) -> Setup<T> {
     let x = match c.fam {
         Family::OLeary => linspace(0.0, 1.5, c.n),
         Family::GaussDecayOff => linspace(0.0, 2.0 * c.alpha[0] + 2.0 * c.alpha[2], c.n),
-        _ => linspace(0.0, 4.0 * tau_max(c), c.n),
+        _ => linspace(0.0, c.span.unwrap_or(4.0) * tau_max(c), c.n),
     };
     let spec = ModelSpec::new(c.fam.clone(), x);
     let phi = spec.eval_ref::<f64>(&c.alpha);
@@ -447,6 +450,11 @@ fn check_c06_fit<T: Sc>(ctx: &Ctx, c: &Case, su: &Setup<T>) {
             prob::build(RowScaled::wrap(make_t::<T>(&su.spec, c.prov, &su.a0), w.clone()), &ys, None, c.eps.map(|e| T::f(e)), su.api, c.par).unwrap()
         }
     };
+    // the twin is built: the weighted problem, which by the property yields the same, must be built as well
+    if let Err(e) = prob::build(make_t::<T>(&su.spec, c.prov, &su.a0), &su.y, Some(&w), c.eps.map(|e| T::f(e)), su.api, c.par) {
+        ctx.with(|s| s.violate("C06", "weighted-rejected-while-twin-builds", cj(), format!("the weighted problem is rejected ({}), the row-scaled / unweighted twin is built", e)));
+        return;
+    }
     let stats_possible = !c.mrhs_api;
     let r = guarded(|| {
         if stats_possible {
@@ -755,11 +763,27 @@ fn c05_cases(thorough: bool, v: &mut dyn FnMut(Case)) {
                                             continue;
                                         }
                                         let coefs: Vec<Vec<f64>> = (0..s).map(|k| cf.iter().enumerate().map(|(j, c)| c * (1.0 + 0.5 * k as f64) + 0.25 * (k * (j + 1)) as f64).collect()).collect();
-                                        v(Case { fam: fam.clone(), alpha: alpha.clone(), coefs, n, prov, f32_, par, mrhs_api: s > 1 || (ti + smi) % 2 == 1, w, level, noise_variant: nv, start_mult: sm.clone(), solver: SolverCfg::default_(), pool: 0, eps: if (ti + smi + n) % 5 == 0 { Some(if (ti + smi) % 2 == 0 { 1e-3 } else { 1e-2 }) } else { None } });
+                                        v(Case { fam: fam.clone(), alpha: alpha.clone(), coefs, n, prov, f32_, par, mrhs_api: s > 1 || (ti + smi) % 2 == 1, w, level, noise_variant: nv, start_mult: sm.clone(), solver: SolverCfg::default_(), pool: 0, eps: if (ti + smi + n) % 5 == 0 { Some(if (ti + smi) % 2 == 0 { 1e-3 } else { 1e-2 }) } else { None }, span: None });
                                     }
                                 }
                             }
                         }
+                    }
+                }
+            }
+        }
+    }
+}
+
+/// sample grids so long that the tail of the decay underflows gradually: the function matrix contains denormal entries
+/// (f32: beyond 87 decay constants, f64: beyond 708) - still a certified instance, the information is in the first samples
+fn c05_long_grid_cases(_thorough: bool, v: &mut dyn FnMut(Case)) {
+    for (alpha, cf) in truths(&Family::Exp1Off, false) {
+        for (f32_, n, span) in [(true, 128usize, 100.0), (false, 2048, 730.0)] {
+            for (level, nv) in [(0.0, 0u64), (1e-3, 1)] {
+                for (prov, par) in [(Prov::Hand, false), (Prov::Built, true)] {
+                    for w in [WKind::None, WKind::Ones] {
+                        v(Case { fam: Family::Exp1Off, alpha: alpha.clone(), coefs: vec![cf.clone()], n, prov, f32_, par, mrhs_api: false, w, level, noise_variant: nv, start_mult: vec![1.05], solver: SolverCfg::default_(), pool: 0, eps: None, span: Some(span) });
                     }
                 }
             }
@@ -808,7 +832,7 @@ fn c04_cases(thorough: bool, v: &mut dyn FnMut(Case)) {
                                     continue;
                                 }
                                 let coefs: Vec<Vec<f64>> = (0..s).map(|k| cf.iter().map(|c| c * (1.0 + 0.5 * k as f64)).collect()).collect();
-                                v(Case { fam: fam.clone(), alpha: alpha.clone(), coefs, n: 24, prov, f32_, par, mrhs_api: s > 1, w, level, noise_variant: nv, start_mult: sm.clone(), solver: *solver, pool: 0, eps: if (si + ci) % 3 == 0 { Some([1e-3, 1e-2, -1e-6][(si + ci) / 3 % 3]) } else { None } });
+                                v(Case { fam: fam.clone(), alpha: alpha.clone(), coefs, n: 24, prov, f32_, par, mrhs_api: s > 1, w, level, noise_variant: nv, start_mult: sm.clone(), solver: *solver, pool: 0, eps: if (si + ci) % 3 == 0 { Some([1e-3, 1e-2, -1e-6][(si + ci) / 3 % 3]) } else { None }, span: None });
                             }
                         }
                     }
@@ -830,7 +854,7 @@ fn c04_shape_cases(thorough: bool, v: &mut dyn FnMut(Case)) {
                         continue;
                     }
                     let coefs: Vec<Vec<f64>> = (0..s).map(|k| cf.iter().map(|c| c * (1.0 + 0.25 * k as f64)).collect()).collect();
-                    v(Case { fam: fam.clone(), alpha: alpha.clone(), coefs, n, prov: Prov::Hand, f32_, par, mrhs_api: true, w: if s % 2 == 0 { WKind::Ramp } else { WKind::None }, level: 1e-3, noise_variant: 1, start_mult: vec![1.05; fam.p()], solver: SolverCfg::default_(), pool: 0, eps: None });
+                    v(Case { fam: fam.clone(), alpha: alpha.clone(), coefs, n, prov: Prov::Hand, f32_, par, mrhs_api: true, w: if s % 2 == 0 { WKind::Ramp } else { WKind::None }, level: 1e-3, noise_variant: 1, start_mult: vec![1.05; fam.p()], solver: SolverCfg::default_(), pool: 0, eps: None, span: None });
                 }
             }
         }
@@ -848,8 +872,26 @@ fn c04_scale_cases(_thorough: bool, v: &mut dyn FnMut(Case)) {
                     for par in [false, true] {
                         for (level, nv) in [(1e-2, 2u64), (0.0, 0)] {
                             let coefs: Vec<Vec<f64>> = (0..s).map(|k| cf.iter().map(|c| c * scale * (1.0 + 0.5 * k as f64)).collect()).collect();
-                            v(Case { fam: fam.clone(), alpha: alpha.clone(), coefs, n: 24, prov: Prov::Hand, f32_, par, mrhs_api: s > 1, w: WKind::None, level, noise_variant: nv, start_mult: vec![1.05; fam.p()], solver: SolverCfg::default_(), pool: 0, eps: None });
+                            v(Case { fam: fam.clone(), alpha: alpha.clone(), coefs, n: 24, prov: Prov::Hand, f32_, par, mrhs_api: s > 1, w: WKind::None, level, noise_variant: nv, start_mult: vec![1.05; fam.p()], solver: SolverCfg::default_(), pool: 0, eps: None, span: None });
                         }
+                    }
+                }
+            }
+        }
+    }
+}
+
+/// a threshold below machine epsilon is a legal request: with weights of 1e-18 every singular value of the weighted basis
+/// matrix lies between such a threshold and machine epsilon, and the fit must still be the weighted fit
+fn c04_subeps_cases(_thorough: bool, v: &mut dyn FnMut(Case)) {
+    for fam in [Family::Exp1Off, Family::Exp2Off] {
+        let (alpha, cf) = truths(&fam, false)[1].clone();
+        for f32_ in [false, true] {
+            for eps in [1e-30, 0.0, -1e-25] {
+                for s in [1usize, 2] {
+                    for par in [false, true] {
+                        let coefs: Vec<Vec<f64>> = (0..s).map(|k| cf.iter().map(|c| c * (1.0 + 0.5 * k as f64)).collect()).collect();
+                        v(Case { fam: fam.clone(), alpha: alpha.clone(), coefs, n: 24, prov: Prov::Hand, f32_, par, mrhs_api: s > 1, w: WKind::Atto, level: 1e-2, noise_variant: 2, start_mult: vec![1.05; fam.p()], solver: SolverCfg::default_(), pool: 0, eps: Some(eps), span: None });
                     }
                 }
             }
@@ -928,11 +970,15 @@ fn main() {
             }
         };
         match prop.as_str() {
-            "C05" => c05_cases(thorough, &mut visit),
+            "C05" => {
+                c05_cases(thorough, &mut visit);
+                c05_long_grid_cases(thorough, &mut visit);
+            }
             "C04" => {
                 c04_cases(thorough, &mut visit);
                 c04_shape_cases(thorough, &mut visit);
                 c04_scale_cases(thorough, &mut visit);
+                c04_subeps_cases(thorough, &mut visit);
             }
             "C02" => {
                 c04_cases(thorough, &mut visit);
@@ -951,7 +997,7 @@ fn main() {
                     k += 1;
                     // KeepOnly(M+P): exactly as many samples with a non-zero weight as there are parameters, N larger
                     let mp = c.fam.m() + c.fam.p();
-                    let kinds = [WKind::Ones, WKind::Threes, WKind::Ramp, WKind::InvSigma, WKind::Spread, WKind::Tiny, WKind::Dyadic, WKind::NegAt(3), WKind::ZeroAt(1), WKind::KeepOnly(mp), WKind::KeepOnly(mp + 1), WKind::NegRamp, WKind::NegRampZeroAt(2)];
+                    let kinds = [WKind::Ones, WKind::Threes, WKind::Ramp, WKind::InvSigma, WKind::Spread, WKind::Tiny, WKind::Dyadic, WKind::NegAt(3), WKind::ZeroAt(1), WKind::KeepOnly(mp), WKind::KeepOnly(mp + 1), WKind::NegRamp, WKind::NegRampZeroAt(2), WKind::Astro];
                     if c.w != WKind::None && (thorough || k % 4 == 0) {
                         c.w = kinds[(k as usize / 4) % kinds.len()];
                         visit(c)
